@@ -422,3 +422,21 @@ Lemma canonical_float_one_minus :
   canonical_float [x2d; x2d; x31] = false /\ canonical_float [x2d; x2d; x31; x2e; x35] = false /\
   canonical_float [x2d; x31] = true /\ canonical_float [x2d; x31; x2e; x35] = true /\ canonical_float [x30] = true.
 Proof. vm_compute. auto. Qed.
+
+(* ------------------------------------------------------------------------------------------ *)
+(* nothing is outside the modelled domain at these two leaves                                  *)
+(* ------------------------------------------------------------------------------------------ *)
+Lemma uuid_datetime_leaves_total j : reenc_leaf LUUID j <> Dom /\ reenc_leaf LDateTime j <> Dom.
+Proof.
+  split; destruct j; cbn [reenc_leaf]; try discriminate.
+  - destruct (parse_uuid s); discriminate.
+  - destruct (parse_datetime s); discriminate.
+Qed.
+
+(* the 38-byte form: the two outer bytes are not looked at *)
+Lemma parse_uuid_outer_bytes a z h : length h = 32%nat -> forallb is_hex h = true ->
+  parse_uuid (a :: hyphenate h ++ [z]) = Some (hyphenate (map lower_hex h)).
+Proof.
+  intros L F. apply parse_uuid_spec. right. exists h. repeat split; auto.
+  right; right; right. exists a, z. reflexivity.
+Qed.
